@@ -1,6 +1,7 @@
 package validator
 
 import (
+	"github.com/jsightapi/jsight-schema-go-library/bytes"
 	"github.com/jsightapi/jsight-schema-go-library/errors"
 	"github.com/jsightapi/jsight-schema-go-library/internal/lexeme"
 )
@@ -49,11 +50,18 @@ func (t *Tree) FeedLeaves(jsonLex lexeme.LexEvent) bool {
 
 	var err error
 
+	// The place the errors of the leaves point at, while they all point at the
+	// same one.
+	errorIndex, samePlace := jsonLex.Begin(), true
+
 	for _, indexOfLeaf := range t.leavesIndexes {
 		if leaf, ok := t.leaves[indexOfLeaf]; ok {
 			err = t.feedLeaf(leaf, jsonLex, indexOfLeaf) // can panic
 			if err != nil {
 				errorsCount++
+				i, ok := indexOfLeafError(err, jsonLex)
+				samePlace = samePlace && ok && (errorsCount == 1 || i == errorIndex)
+				errorIndex = i
 			}
 		}
 	}
@@ -62,7 +70,13 @@ func (t *Tree) FeedLeaves(jsonLex lexeme.LexEvent) bool {
 		if len(t.leavesIndexes) == 1 {
 			panic(err)
 		} else {
-			panic(lexeme.NewLexEventError(jsonLex, errors.ErrOrRuleSetValidation))
+			orErr := lexeme.NewLexEventError(jsonLex, errors.ErrOrRuleSetValidation)
+			if samePlace {
+				// Not always the lexeme the leaves are fed with: a key is rejected
+				// when its value begins.
+				orErr.SetIndex(errorIndex)
+			}
+			panic(orErr)
 		}
 	}
 
@@ -70,6 +84,16 @@ func (t *Tree) FeedLeaves(jsonLex lexeme.LexEvent) bool {
 		return true
 	}
 	return false
+}
+
+// indexOfLeafError returns the index the error of a leaf points at in the
+// document the lexeme belongs to.
+func indexOfLeafError(err error, jsonLex lexeme.LexEvent) (bytes.Index, bool) {
+	e, ok := err.(errors.DocumentError)
+	if !ok || e.Filename() != jsonLex.File().Name() {
+		return 0, false
+	}
+	return e.Index(), true
 }
 
 func (t *Tree) setLeavesIndexes() {
